@@ -9,4 +9,18 @@ for t in ('cbmc', 'goto-cc', 'goto-instrument', 'kissat', 'gcc', 'python3'):
 if ok:
     v = subprocess.run(['cbmc', '--version'], capture_output=True, text=True).stdout.strip()
     print('cbmc version', v)
+# validate the plain-C SSE lane models used by C15 against the host CPU (nothing is cached: the binary is removed again)
+import os, tempfile
+V = os.path.dirname(os.path.abspath(__file__))
+if ok and 'sse4_1' in open('/proc/cpuinfo').read():
+    d = tempfile.mkdtemp(prefix='verif-setup-', dir=os.environ.get('VERIF_SCRATCH', '/var/tmp'))
+    exe = os.path.join(d, 'v')
+    r = subprocess.run(['gcc', '-O1', '-w', '-msse4.1', os.path.join(V, 'shim_sse', 'validate.c'), '-o', exe], capture_output=True, text=True)
+    if r.returncode == 0:
+        r = subprocess.run([exe], capture_output=True, text=True)
+    print((r.stdout + r.stderr).strip())
+    ok &= (r.returncode == 0)
+    shutil.rmtree(d, ignore_errors=True)
+elif ok:
+    print('host CPU has no SSE4.1: shim_sse models not validated here (C15 evidence says so)')
 sys.exit(0 if ok else 1)
